@@ -106,7 +106,7 @@ class _RunFilter(object):
             elif parts[0] == "t" and len(parts) == 2:
                 self._tag_filters.append(_TagFilter(parts[1]))
             else:
-                raise RuntimeError("Unknown filter expression: " + run_filter)
+                raise ConfigurationError("Unknown filter expression: " + run_filter)
 
     def applies_to_bench(self, bench):
         return (self._match(self._executor_filters, bench) and
